@@ -452,6 +452,25 @@ func (ex *Exec) sinkCall(fr *Frame, sd *SinkDecl, name string, callee *ssa.Funct
 	vc.declareFun(pred, []string{SStr}, SBool)
 	vc.usedExt[fmt.Sprintf("sink type %s: methods change nothing the contracts mention, return their receiver when the result has its type, and return only %s text; their string parameters are checked for %s", sd.Recv, sd.Pred, sd.Pred)] = true
 	meth := callee.Name()
+	loose := ""
+	if sd.Rendered != "" {
+		loose = "uf_" + sd.Rendered
+		vc.declareFun(loose, []string{SStr}, SBool)
+	}
+	// bound arguments present (or not provably absent): the text is interpolated again, so it must be a template
+	hasArgs := false
+	if sig.Variadic() && len(args) == sig.Params().Len()+1 {
+		last := ex.toTerm(st, args[len(args)-1], sig.Params().At(sig.Params().Len()-1).Type())
+		if lit, ok := vc.seqLits[last.S]; ok {
+			hasArgs = len(lit) > 0
+		} else {
+			hasArgs = last.S != "sq_empty_"+last.Sort
+		}
+	}
+	strict := pred
+	if loose != "" && !hasArgs {
+		pred = loose
+	}
 	for i := 0; i < sig.Params().Len() && i+1 < len(args); i++ {
 		pt := sig.Params().At(i).Type()
 		a := args[i+1]
@@ -483,8 +502,14 @@ func (ex *Exec) sinkCall(fr *Frame, sd *SinkDecl, name string, callee *ssa.Funct
 		default:
 			continue
 		}
+		what := sd.Pred
+		if pred == loose {
+			what = sd.Rendered
+		} else if loose != "" {
+			what += " (bound arguments accompany it: it is interpolated again, rendered text must not be part of it)"
+		}
 		vc.curProps = sd.Props
-		ex.obligationFull(fr, st, "call-requires", fmt.Sprintf("text passed to %s.%s (parameter %s) must be %s", sd.Recv, meth, sig.Params().At(i).Name(), sd.Pred), goal, false, fmt.Sprintf("sink.%s.%d@%d", meth, i, ex.siteOrdinal(ex.cur)), ground)
+		ex.obligationFull(fr, st, "call-requires", fmt.Sprintf("text passed to %s.%s (parameter %s) must be %s", sd.Recv, meth, sig.Params().At(i).Name(), what), goal, false, fmt.Sprintf("sink.%s.%d@%d", meth, i, ex.siteOrdinal(ex.cur)), ground)
 		vc.curProps = nil
 	}
 	if sc := vc.prog.scopeFor(callee); sc != nil {
@@ -498,7 +523,11 @@ func (ex *Exec) sinkCall(fr *Frame, sd *SinkDecl, name string, callee *ssa.Funct
 		}
 		v := ex.freshOfType(st, rt, "res_"+meth)
 		if b, ok := rt.Underlying().(*types.Basic); ok && b.Kind() == types.String && v.K == VTerm {
-			st.assume(app(pred, v.T.S))
+			if loose != "" {
+				st.assume(app(loose, v.T.S))
+			} else {
+				st.assume(app(strict, v.T.S))
+			}
 		}
 		if _, ok := rt.Underlying().(*types.Pointer); ok && v.K == VTerm && v.T.Sort == SRef {
 			st.assume(app(">", v.T.S, "0"))
